@@ -164,11 +164,12 @@ def mapping(ref_fn: ast.AST, act_fn: ast.AST) -> Dict[str, str]:
     # a target name must be free: not a local of the actual function that keeps its name, not a builtin/global use
     act_locals = local_names(act_fn)
     free_names = {n.id for n in ast.walk(act_fn) if isinstance(n, ast.Name)} - act_locals
-    # to a fixpoint: a rename that is dropped makes its source name "staying", which can invalidate another rename onto that name
     while True:
+        # to a fixpoint: dropping one renaming makes its source a local that keeps its name, which may be the target of another
+        # renaming (two distinct variables must never be merged into one name)
         staying = act_locals - set(m)
         m2 = {a: r for a, r in m.items() if r not in staying and r not in free_names and r not in _BUILTINS}
-        if len(m2) == len(m):
+        if m2 == m:
             break
         m = m2
     return m
